@@ -149,22 +149,51 @@ Proof.
 Qed.
 
 (* ------------------------------------------------------------------------------------------ *)
-Theorem checker05_sound : forall c : rcase,
-  agree05 c = true -> negb (o_api_panic c) && encoded c = true -> known_D01 c = false -> o_same2 c = true.
+Lemma agree05_same2 : forall c2 : rcase2,
+  agree05 c2 = true -> negb (o_api_panic (rc2 c2)) && encoded (rc2 c2) = true ->
+  exists b, model_same2 (rc2 c2) = Some b /\ o_same2 (rc2 c2) = b.
 Proof.
-  intros c Ha Hd Hk. unfold agree05 in Ha. apply andb_true_iff in Ha. destruct Ha as [_ Ha].
+  intros c2 Ha Hd. unfold agree05 in Ha. apply andb_true_iff in Ha. destruct Ha as [_ Ha].
   apply andb_true_iff in Hd. destruct Hd as [Hp He]. apply negb_true_iff in Hp. rewrite Hp in Ha.
-  unfold known_D01 in Hk. destruct (model_same2 c) as [[|]|]; try discriminate.
-  - apply andb_true_iff in Ha. destruct Ha as [_ Ha]. destruct (o_same2 c); [reflexivity|discriminate].
-  - rewrite He in Ha. discriminate.
+  unfold model_same2.
+  destruct (encode (final_model (rc2 c2)) (dead_exports (h_ops (rc2 c2))) (sites (rc2 c2))) as [e1|w].
+  2:{ rewrite He in Ha. discriminate. }
+  apply andb_true_iff in Ha. destruct Ha as [_ Ha].
+  destruct (encode_again (final_model (rc2 c2)) (dead_exports (h_ops (rc2 c2))) (sites (rc2 c2))) as [e2|w].
+  - apply andb_true_iff in Ha. destruct Ha as [_ Ha]. exists (emod_eqb e1 e2). split; [reflexivity|].
+    apply eqb_prop in Ha. symmetry. exact Ha.
+  - apply andb_true_iff in Ha. destruct Ha as [_ Ha]. exists false. split; [reflexivity|].
+    apply negb_true_iff in Ha. exact Ha.
+Qed.
+
+Theorem checker05_sound : forall c2 : rcase2,
+  agree05 c2 = true -> negb (o_api_panic (rc2 c2)) && encoded (rc2 c2) = true -> known_D01 (rc2 c2) = false ->
+  o_same2 (rc2 c2) = true.
+Proof.
+  intros c2 Ha Hd Hk. destruct (agree05_same2 c2 Ha Hd) as [b [Hm Hb]]. unfold known_D01 in Hk. rewrite Hm in Hk.
+  destruct b; [exact Hb|discriminate].
 Qed.
 
 (* the class is exact on agreeing cases: inside D01 the two real encodings were observed to differ *)
-Theorem known_D01_exact : forall c : rcase,
-  agree05 c = true -> negb (o_api_panic c) && encoded c = true -> known_D01 c = true -> o_same2 c = false.
+Theorem known_D01_exact : forall c2 : rcase2,
+  agree05 c2 = true -> negb (o_api_panic (rc2 c2)) && encoded (rc2 c2) = true -> known_D01 (rc2 c2) = true ->
+  o_same2 (rc2 c2) = false.
 Proof.
-  intros c Ha Hd Hk. unfold agree05 in Ha. apply andb_true_iff in Ha. destruct Ha as [_ Ha].
+  intros c2 Ha Hd Hk. destruct (agree05_same2 c2 Ha Hd) as [b [Hm Hb]]. unfold known_D01 in Hk. rewrite Hm in Hk.
+  destruct b; [discriminate|exact Hb].
+Qed.
+
+(* on agreeing cases the CONTENT of the second real encoding is what the model of the in-place rewriting emits *)
+Theorem second_encoding_is_the_models : forall (c2 : rcase2) e2,
+  agree05 c2 = true -> negb (o_api_panic (rc2 c2)) && encoded (rc2 c2) = true ->
+  encode_again (final_model (rc2 c2)) (dead_exports (h_ops (rc2 c2))) (sites (rc2 c2)) = Ok e2 ->
+  exists e2', o_enc2 c2 = Some e2' /\ emod_eqb e2 e2' = true.
+Proof.
+  intros c2 e2 Ha Hd H2. unfold agree05 in Ha. apply andb_true_iff in Ha. destruct Ha as [_ Ha].
   apply andb_true_iff in Hd. destruct Hd as [Hp He]. apply negb_true_iff in Hp. rewrite Hp in Ha.
-  unfold known_D01 in Hk. destruct (model_same2 c) as [[|]|]; try discriminate.
-  apply andb_true_iff in Ha. destruct Ha as [_ Ha]. destruct (o_same2 c); [discriminate|reflexivity].
+  destruct (encode (final_model (rc2 c2)) (dead_exports (h_ops (rc2 c2))) (sites (rc2 c2))) as [e1|w].
+  2:{ rewrite He in Ha. discriminate. }
+  apply andb_true_iff in Ha. destruct Ha as [_ Ha]. rewrite H2 in Ha.
+  apply andb_true_iff in Ha. destruct Ha as [Ha _].
+  destruct (o_enc2 c2) as [e2'|]; [|discriminate]. exists e2'. split; [reflexivity|exact Ha].
 Qed.
